@@ -1341,9 +1341,9 @@ class SpectrumResult:
                     else None
                 )
             elif name == "Gxy_dev":
-                val = (
-                    np.sqrt(np.abs(self.Gxy) ** 2 / coh / navg) if self.iscsd else None
-                )
+                # |Gxy| / sqrt(coh * navg); squaring |Gxy| first under/overflows for
+                # very small or very large spectra
+                val = np.abs(self.Gxy) / np.sqrt(coh * navg) if self.iscsd else None
             elif name == "coh_dev":
                 val = (
                     np.sqrt(np.abs((2 * coh / navg) * (1 - coh) ** 2))
